@@ -266,8 +266,11 @@ func (self *AofFile) Open() error {
 
 func (self *AofFile) ReadHeader() error {
 	buf := make([]byte, 12)
-	n, err := self.rbuf.Read(buf)
+	n, err := io.ReadFull(self.rbuf, buf)
 	if err != nil {
+		if err == io.ErrUnexpectedEOF {
+			return io.EOF
+		}
 		return err
 	}
 	if n != 12 {
@@ -317,21 +320,17 @@ func (self *AofFile) ReadLock(lock *AofLock) error {
 		return errors.New("Buffer Len error")
 	}
 
-	n, err := self.rbuf.Read(buf)
+	n, err := io.ReadFull(self.rbuf, buf[:64])
 	if err != nil {
+		if err == io.ErrUnexpectedEOF {
+			return io.EOF
+		}
 		return err
 	}
 
 	lockLen := uint16(buf[0]) | uint16(buf[1])<<8
 	if n != int(lockLen)+2 {
-		nn, nerr := self.rbuf.Read(buf[n:64])
-		if nerr != nil {
-			return err
-		}
-		n += nn
-		if n != int(lockLen)+2 {
-			return errors.New("Lock Len error")
-		}
+		return errors.New("Lock Len error")
 	}
 
 	self.size += 2 + int(lockLen)
@@ -1484,6 +1483,9 @@ func (self *Aof) LoadAofFile(filename string, lock *AofLock, expriedTime int64, 
 	aofFile := NewAofFile(self, filepath.Join(self.dataDir, filename), os.O_RDONLY, int(Config.AofFileBufferSize))
 	err := aofFile.Open()
 	if err != nil {
+		if err == io.EOF {
+			return nil
+		}
 		return err
 	}
 
@@ -1507,6 +1509,9 @@ func (self *Aof) LoadAofFile(filename string, lock *AofLock, expriedTime int64, 
 			err = aofFile.ReadLockData(lock)
 			if err != nil {
 				_ = aofFile.Close()
+				if err == io.ErrUnexpectedEOF {
+					return io.EOF
+				}
 				return err
 			}
 		} else {
